@@ -4,6 +4,7 @@ argument-binding laws checked on the implementation, and the repository's own
 tests/*.pangaea scripts as a language-wide correspondence corpus."""
 import itertools
 from pv import *
+import re
 import pancore
 import corpus
 
@@ -59,6 +60,29 @@ EXPECT = [
     ("anon_chain_two_levels", "z := {|x| {|| {|| .v}()}()}\nz({v: 7}).p\n", "7\n"),
     ("anon_chain_own_argument", "{|x| {|y| .v}({v: 1})}({v: 2}).p\n", "1\n"),
 ]
+
+
+# the same literal evaluated several times with different values of a free variable gives each time what the literal written
+# out with that value gives (nothing of an earlier evaluation of the literal is remembered): templates with the free variable v
+RELIT = [
+    "{|k: v * 100| k}()", "{|a, k: v| [a, k]}(1)", "{|a, k: v, j: v + 1| [a, k, j]}(0, j: 9)", "{f: m{|k: v| k}}.f", "{|| v}()", "{|x| x + v}(10)",
+    "<{|i, s: v| yield i * s if i < 3; recur(i + 1, s: s)}>.new(1).A", "<{|i| yield i + v if i < 2; recur(i + 1)}>.new(0).A",
+    '[["id", v], ["t", v + 1]]', "[[v]]", "[v, [v, [v]]]", "{a: v}", "{a: {b: v}}", "%{v: v}", "%{[v]: v}", "(v:v + 3).A", "(1:v + 2)", "(v:nil:v)",
+    "(1:10).A[-v:]", '"abcdef"[-v:]', "[1, 2, 3, 4, 5][:-v]", "[1, 2, 3, 4, 5][::-v]", "[1, 2, 3, 4, 5][-v]", '"s#{v}t#{v + 1}"', "`raw` + v.S",
+    "-v", "!v", "[*[v, v]]", "{**{a: v}}", "v if v == 2 else -v", "v.try.+(1).val", "[1, 2]@{|x| x + v}", "[1, 2]$(v){|a, x| a + x}", "'sym.S + v.S",
+    "{|a: v| {|b: a + 1| [a, b]}()}()", "{|| {|k: v| k}}()()",
+]
+
+
+def relit_cases():
+    out = []
+    vals = [1, 2, 3, 1]
+    for t in RELIT:
+        direct = "[" + ", ".join("(" + re.sub(r"\bv\b", str(x), t) + ")" for x in vals) + "]"
+        out.append(("relit/function", "F := {|v| %s}\nr := [F(1), F(2), F(3), F(1)]\nr" % t, direct))
+        out.append(("relit/chain", "r := [1, 2, 3, 1]@{|v| [%s]}\nr=@{|e| e[0]}" % t, direct))
+        out.append(("relit/method", "O := {f: m{|v| %s}}\nr := [O.f(1), O.f(2), O.f(3), O.f(1)]\nr" % t, direct))
+    return out
 
 
 def binding_cases():
@@ -153,6 +177,11 @@ def main(chk):
     for name, prog, exp in EXPECT:
         expect_at[len(cases)] = exp
         cases.append(("expect:" + name, prog))
+    relit_at = {}
+    for fam_, prog, direct in relit_cases():
+        relit_at[len(cases)] = len(cases) + 1
+        cases.append((fam_, prog + "\n"))
+        cases.append((fam_ + "/direct", direct + "\n"))
     groups = binding_cases()
     group_of = {}
     for gi, g in enumerate(groups):
@@ -184,6 +213,15 @@ def main(chk):
             viol.append(("two spellings of the same argument list bind differently: `%s` -> %r but `%s` -> %r" % (
                 progs[a].split("\n")[1], res[a]["impl"].get("out"), progs[b].split("\n")[1], res[b]["impl"].get("out")),
                 {"program_a": progs[a], "program_b": progs[b], "impl_a": res[a]["impl"], "impl_b": res[b]["impl"]}, "C03:binding-law"))
+    for i, j in relit_at.items():
+        a, b = res[i]["impl"], res[j]["impl"]
+        if a["kind"] == "fuel" or b["kind"] == "fuel":
+            continue
+        if (a["kind"], a.get("repr"), a.get("errk")) != (b["kind"], b.get("repr"), b.get("errk")):
+            viol.append(("a literal evaluated several times remembers an earlier evaluation (%s): `%s` gives %s, the literals written out give %s" % (
+                cases[i][0], cases[i][1].strip().replace("\n", "; "), a.get("repr") or (a.get("errk"), a.get("errmsg")), b.get("repr") or (b.get("errk"), b.get("errmsg"))),
+                {"program": cases[i][1], "written_out": cases[j][1], "impl": a, "impl_written_out": b}, "C03:relit"))
+            break
     for i, exp in expect_at.items():
         imp = res[i]["impl"]
         if not (imp["kind"] == "value" and imp.get("out") == exp):
@@ -210,13 +248,15 @@ def main(chk):
                          "C03:corpus"))
     chk.cov["input_distribution"] = fam
     chk.cov["binding_groups"] = len(groups)
-    chk.cov["rule"] = ("%d programs with hand-derived answers (argvars beyond \\9, `**` operands left unchanged and reusable, receiver-less chains in "
+    chk.cov["rule"] = ("%d literal templates with a free variable evaluated 4 times through a function, a chain and a method vs the literals written out (nothing of "
+                       "an earlier evaluation of a literal may be remembered: keyword defaults, nested literals, ranges with computed bounds, interpolations); "
+                       "%d programs with hand-derived answers (argvars beyond \\9, `**` operands left unchanged and reusable, receiver-less chains in "
                        "closures without positional arguments); 31 classic scoping programs (shadowing, closures over later reassignment, caller vs definition scope, recursion, "
                        "mutual recursion, counters, argvars, kwargvars, defaults, method receiver, anonymous chain); every arity 0..5 x keyword "
                        "sets x ALL interleavings of keyword and positional arguments x `*` at every cut x `**` (grouped: all spellings of one "
                        "argument list must bind alike - checked on the implementation - and equal PanCore); method calls; seeded random "
                        "nestings of function literals (depth<=3) with assignments, compound assignments, inner definitions, calls with arity "
-                       "mismatch; plus the repository's tests/*.pangaea corpus. All compared on stdout, value, error kind+message." % len(EXPECT))
+                       "mismatch; plus the repository's tests/*.pangaea corpus. All compared on stdout, value, error kind+message." % (len(RELIT), len(EXPECT)))
     for i in (0, len(CLASSIC) + 5, len(progs) - 1):
         chk.sample({"program": progs[i], "impl": {k: res[i]["impl"].get(k) for k in ("kind", "repr", "errk", "out")},
                     "model_verdict": res[i]["verdict"]})
